@@ -32,6 +32,10 @@ tail = tail.replace('@@R4_STATS@@', r4_stats)
 r5 = [json.load(open(dd + 'meta.json')) for dd in sorted(glob.glob('/verif/seeded/C*-9/') + glob.glob('/verif/seeded/C*-10/'))]
 own5 = sum(1 for m in r5 if m['confirmed'].get('own_property_check_detected_on_first_run'))
 any5 = sum(1 for m in r5 if m['confirmed'].get('first_run', {}).get('detected_by'))
+r6 = [json.load(open(dd + 'meta.json')) for dd in sorted(glob.glob('/verif/seeded/C*-11/') + glob.glob('/verif/seeded/C*-12/'))]
+own6 = sum(1 for m in r6 if m['confirmed'].get('own_property_check_detected_on_first_run'))
+any6 = sum(1 for m in r6 if m['confirmed'].get('first_run', {}).get('detected_by'))
+tail = tail.replace('@@R6_STATS@@', "%d of %d were caught at once by the targeted check, %d of %d by some check" % (own6, len(r6), any6, len(r6)))
 tail = tail.replace('@@R5_STATS@@', "%d of %d were caught at once by the targeted check, %d of %d by some check" % (own5, len(r5), any5, len(r5)))
 tail = tail.replace('@@COVERAGE_TABLE@@', cov).replace('@@SEED_TABLE@@', seeds).replace('@@MUTANT_TABLE@@', mut)
 open('/verif/DESIGN.md', 'w').write(d.rstrip('\n') + "\n\n" + head + tail)
